@@ -141,6 +141,23 @@ def mergeParams (nvol : Nat) (ifs : List Iface) : Except MergeErr Params :=
     if dm.isEmpty then .ok ⟨sel, none, false⟩
     else .ok ⟨sel, some (detTable nvol dm), nz⟩
 
+/-- `SimpleCalo::filters()` / `selection()` for a calorimeter built on the volume list `vols`:
+    `result.detectors[volume_ids_[didx]] = DetectorId{didx}` — detector ids are numbered from 0
+    PER CALORIMETER (a later duplicate label overwrites; `std::map`: keys sorted), the non-zero
+    filter is on, the selection is {energy_deposition, pre-step volume}. -/
+def insertNat (x : Nat) : List Nat → List Nat
+  | [] => [x]
+  | y :: ys => if x ≤ y then x :: y :: ys else y :: insertNat x ys
+
+def caloDets (vols : List Nat) : List (Nat × Nat) :=
+  let pairs := vols.zipIdx
+  let keys := (vols.foldl (fun acc v => if acc.contains v then acc else acc ++ [v]) [])
+  let sorted := keys.foldr insertNat []
+  sorted.map fun v => (v, ((pairs.filter (fun p => p.1 == v)).map (·.2)).getLastD 0)
+
+def caloIface (vols : List Nat) : Iface :=
+  ⟨{ edep := true, pre := { volume := true } }, caloDets vols, true⟩
+
 /-- whether StepCollector registers a pre-step gather action -/
 def hasPreAction (p : Params) : Bool := p.sel.pre.any || p.detector.isSome
 
